@@ -242,7 +242,13 @@ impl<'a> Program<'a> {
                 /* TODO: Perhaps use location of the operator? */
                 self.loc = a_loc;
 
-                Val::Sock4(SocketAddrV4::new(a.into(), b.into()))
+                let port: u64 = b.into();
+                if port > u16::MAX as u64 {
+                    /* a port number must fit in 16 bits */
+                    return Err(TypeError);
+                }
+
+                Val::Sock4(SocketAddrV4::new(a.into(), port as u16))
             }
         })
     }
